@@ -275,6 +275,60 @@ static void prof_userwins(vh_rng_t *r, const vh_args_t *a)
         }
         cfg_eff_free(&e);
       }
+      if (vh_chance(r, 1, 3)) {
+        /* a setter called while a reload is reading the system configuration (the reload thread is held at its first
+         * allocation, i.e. after it started and before it applies anything): what the application sets there is an
+         * explicit setting like any other and must survive the apply step */
+        int       which = (int)vh_below(r, 2);
+        int       waited = 0, src;
+        cfg_eff_t e2;
+        cfg_gate_main = pthread_self();
+        __atomic_store_n(&cfg_gate_closed, 1, __ATOMIC_SEQ_CST);
+        if (ares_reinit(ch) == ARES_SUCCESS) {
+          while (__atomic_load_n(&cfg_gate_waiters, __ATOMIC_SEQ_CST) == 0 && waited++ < 20000) {
+            usleep(100);
+          }
+          if (__atomic_load_n(&cfg_gate_waiters, __ATOMIC_SEQ_CST) > 0) {
+            CNT("userwins_setter_inside_reload_window");
+            if (which == 0) {
+              src = ares_set_servers_ports_csv(ch, "192.0.2.201:53,[2001:db8::201]:5353");
+            } else {
+              src = ares_set_sortlist(ch, "198.51.100.0/24 2001:db8:77::/48");
+            }
+            __atomic_store_n(&cfg_gate_closed, 0, __ATOMIC_SEQ_CST);
+            /* wait for the reload to finish */
+            for (i = 0; i < 100000; i++) {
+              ares_bool_t pending;
+              ares_channel_lock(ch);
+              pending = ch->reinit_pending;
+              ares_channel_unlock(ch);
+              if (!pending) {
+                break;
+              }
+              usleep(100);
+            }
+            if (src == ARES_SUCCESS) {
+              cfg_eff_read(ch, &e2, 0);
+              /* (with ARES_FLAG_PRIMARY only the first server is kept) */
+              if (which == 0 && strcmp(cfg_eff_get(&e2, "i.servers"), "4:192.0.2.201|u53|t53|%|s0;6:2001:db8::201|u5353|t5353|%|s0;") != 0 &&
+                  strcmp(cfg_eff_get(&e2, "i.servers"), "4:192.0.2.201|u53|t53|%|s0;") != 0) {
+                vh_violation("cfg16:userwins:i.servers:set-during-reload", "servers set while a reload was reading the system configuration became %s | %s",
+                             cfg_eff_get(&e2, "i.servers"), w);
+                violated++;
+              }
+              if (which == 1 && e2.nsort != 2) {
+                vh_violation("cfg16:userwins:i.sortlist:set-during-reload", "sortlist (2 entries) set while a reload was reading the system configuration now has %d entries | %s",
+                             (int)e2.nsort, w);
+                violated++;
+              }
+              cfg_eff_free(&e2);
+            }
+          } else {
+            CNT("userwins_reload_window_not_reached");
+          }
+        }
+        __atomic_store_n(&cfg_gate_closed, 0, __ATOMIC_SEQ_CST);
+      }
       ares_destroy(ch);
       ch = NULL;
     }
